@@ -270,3 +270,105 @@ Lemma documented_configuration s1 s2 :
   configured c (PS "public") = Some (cls_PublicID s1) /\ configured c (PS "pairwise") = Some (cls_PairWiseID s2) /\
   configured c (PS "ephemeral") = None.
 Proof. intros c1 c2 c [->| ->]; repeat split; reflexivity. Qed.
+
+(* ==== the salt file over the life of a deployment: what the creating instance writes is what every later instance reads ==== *)
+Lemma read_text_no_cr s : ~ In 13%N s -> read_text s = s.
+Proof.
+  induction s as [|c r IH]; intros Hn; cbn [read_text]; auto.
+  destruct (c =? 13)%N eqn:E.
+  - apply N.eqb_eq in E. subst c. exfalso. apply Hn. now left.
+  - rewrite IH; auto. intros I. apply Hn. now right.
+Qed.
+(* ROUND TRIP of the salt file *)
+Theorem salt_file_round_trip s : ~ In 13%N s -> read_text (write_text s) = s.
+Proof. exact (read_text_no_cr s). Qed.
+
+(* the files of b extend those of a: whatever exists in a exists unchanged in b *)
+Definition fs_le (a b : fsys) : Prop := forall f st, assoc f a = Some st -> assoc f b = Some st.
+Lemma fs_le_refl a : fs_le a a.
+Proof. intros f st E. exact E. Qed.
+Lemma fs_le_trans a b c : fs_le a b -> fs_le b c -> fs_le a c.
+Proof. intros A B f st E. apply B, A, E. Qed.
+Lemma fs_le_create f st fs : assoc f fs = None -> fs_le fs (aset f st fs).
+Proof.
+  intros A f' st' E. rewrite assoc_aset_other; auto. intros ->. congruence.
+Qed.
+
+(* one source: an instance only adds files, and once it has run, every instance that finds (at least) the files it left
+   gets the same salt - whatever its own random draw - and leaves the files alone *)
+Lemma salt_of_settles src fs rnd s fs1 :
+  src <> SrcNone -> ~ In 13%N rnd ->
+  salt_of src fs rnd = InitOk s fs1 ->
+  fs_le fs fs1 /\ forall fs2 rnd', fs_le fs1 fs2 -> salt_of src fs2 rnd' = InitOk s fs2.
+Proof.
+  intros Hs Hr. destruct src as [x|f|]; cbn [salt_of]; [| |congruence].
+  - intros E. inversion E; subst. split; [apply fs_le_refl|reflexivity].
+  - destruct (assoc f fs) as [[raw|]|] eqn:A; intros E; [injection E as <- <- |discriminate|injection E as <- <-].
+    + split; [apply fs_le_refl|]. intros fs2 rnd' L. now rewrite (L _ _ A).
+    + split; [now apply fs_le_create|]. intros fs2 rnd' L.
+      rewrite (L f (FFile (write_text rnd))) by apply assoc_aset_same.
+      now rewrite salt_file_round_trip.
+Qed.
+(* CREATE THEN READ: the instance that finds no file and every instance after it work with the same salt *)
+Theorem create_then_read f fs rnd rnd' :
+  assoc f fs = None -> ~ In 13%N rnd ->
+  exists fs1, salt_of (SrcFile f) fs rnd = InitOk rnd fs1 /\ salt_of (SrcFile f) fs1 rnd' = InitOk rnd fs1.
+Proof.
+  intros A Hr. exists (aset f (FFile (write_text rnd)) fs). cbn [salt_of]. rewrite A. split; [reflexivity|].
+  rewrite assoc_aset_same. now rewrite salt_file_round_trip.
+Qed.
+
+Lemma persistent_class k pw salt fn r : persistent ((k, DClass pw salt fn) :: r) = true -> source_of salt fn <> SrcNone /\ persistent r = true.
+Proof. cbn [persistent]. destruct (source_of salt fn); intros E; (split; [congruence|exact E]) || discriminate. Qed.
+
+(* start-up of a whole configuration *)
+Lemma start_up_settles d : forall i rnd fs conf fs',
+  persistent d = true -> (forall n, ~ In 13%N (rnd n)) ->
+  start_up d i rnd fs = Some (conf, fs') ->
+  fs_le fs fs' /\ forall fs2 j rnd', fs_le fs' fs2 -> start_up d j rnd' fs2 = Some (conf, fs2).
+Proof.
+  induction d as [|[k e] r IH]; intros i rnd fs conf fs' P Hr; cbn [start_up].
+  - intros E. inversion E; subst. split; [apply fs_le_refl|reflexivity].
+  - destruct e as [pw salt fn|e].
+    + apply persistent_class in P as [Hs P].
+      destruct (salt_of (source_of salt fn) fs (rnd i)) as [s fs1|] eqn:Hso; [|discriminate].
+      destruct (start_up r (S i) rnd fs1) as [[c fsr]|] eqn:R; [|discriminate].
+      intros E. inversion E; subst; clear E.
+      destruct (salt_of_settles _ _ _ _ _ Hs (Hr i) Hso) as [L1 K1].
+      destruct (IH _ _ _ _ _ P Hr R) as [L2 K2].
+      split; [eapply fs_le_trans; eauto|].
+      intros fs2 j rnd' L. rewrite (K1 fs2 (rnd' j)) by (eapply fs_le_trans; eauto).
+      now rewrite (K2 fs2 (S j) rnd' L).
+    + cbn [persistent] in P.
+      destruct (start_up r (S i) rnd fs) as [[c fsr]|] eqn:R; [|discriminate].
+      intros E. inversion E; subst; clear E.
+      destruct (IH _ _ _ _ _ P Hr R) as [L2 K2]. split; [exact L2|].
+      intros fs2 j rnd' L. now rewrite (K2 fs2 (S j) rnd' L).
+Qed.
+
+(* SAME CONFIGURATION => SAME MINTERS ON EVERY INSTANCE: when an instance has started from a configuration whose class
+   entries all name a lasting salt (given, or a file - existing or not), every later instance built from the same
+   configuration, finding the files the first one left (and possibly more), has the very same table configuration and
+   leaves the files as they are; so this holds for the third, fourth, ... instance as well *)
+Theorem restart_same_configuration d rnd fs conf fs' :
+  persistent d = true -> (forall n, ~ In 13%N (rnd n)) ->
+  start_up d 0 rnd fs = Some (conf, fs') ->
+  forall fs2 rnd', fs_le fs' fs2 -> start_up d 0 rnd' fs2 = Some (conf, fs2).
+Proof. intros P Hr E fs2 rnd' L. now apply (proj2 (start_up_settles d 0 rnd fs conf fs' P Hr E)). Qed.
+
+(* ... hence the same subs for the same user at the same client on the creating and on every reading instance *)
+Theorem restart_same_subs (H : pystr -> pystr) (host_of : pystr -> pystr) d rnd fs conf fs' :
+  persistent d = true -> (forall n, ~ In 13%N (rnd n)) ->
+  start_up d 0 rnd fs = Some (conf, fs') ->
+  forall fs2 rnd', fs_le fs' fs2 ->
+  exists conf2, start_up d 0 rnd' fs2 = Some (conf2, fs2) /\
+    forall r rd uid salt n, grant_sub_conf H host_of conf2 r rd uid salt n = grant_sub_conf H host_of conf r rd uid salt n.
+Proof.
+  intros P Hr E fs2 rnd' L. exists conf. split; [now apply (restart_same_configuration d rnd fs conf fs')|reflexivity].
+Qed.
+
+(* a salt file that exists is read the same way by every instance, whatever it contains (trailing newline, CRLF, blanks, nothing) *)
+Theorem existing_file_same_salt f raw fs fs2 rnd rnd' :
+  assoc f fs = Some (FFile raw) -> fs_le fs fs2 ->
+  salt_of (SrcFile f) fs rnd = InitOk (read_text raw) fs /\ salt_of (SrcFile f) fs2 rnd' = InitOk (read_text raw) fs2.
+Proof. intros A L. cbn [salt_of]. now rewrite (L _ _ A), A. Qed.
